@@ -58,8 +58,11 @@ def load_known_findings():
 class Reporter:
     """Collects violations for one property; prints the interface lines."""
 
+    MAX_REPORTED = 20   # further distinct violations are counted, not printed
+
     def __init__(self, pid: str):
         self.pid = pid
+        self.suppressed = 0
         self.violations = []       # (key, what, replay_path)
         self.known_hits = []       # (key, what)
         self.drift = []
@@ -77,6 +80,10 @@ class Reporter:
             self.known_hits.append((key, self._known[key].get('what', what)))
             print(f'KNOWN-FINDING: property={self.pid} '
                   f'{self._known[key].get("what", what)}', flush=True)
+            return
+        if len(self.violations) >= self.MAX_REPORTED:
+            self.suppressed += 1
+            self.violations.append((key, what, None))
             return
         d = os.path.join(REPLAYS, self.pid)
         os.makedirs(d, exist_ok=True)
